@@ -54,7 +54,9 @@ def _build():
 
 SESSION, GSET = _build()
 IDVAL = {a: [getattr(ag.genome, a) for ag in GSET.genomes.join(AnnotatedGenome.genome).order_by(Genome.id)] for a in ATTRS}
-EXTRA = {'key': ['zz1', 'other'], 'genbank_acc': ['GCA_q', 'GCA_x'], 'refseq_acc': ['GCF_q', 'GCF_x'], 'ncbi_id': [555, 999]}
+# unrelated stored IDs: one that differs from genome 0's ID only by surrounding whitespace (a different, unique ID all the same), and the ID of
+# the genome outside the set
+EXTRA = {'key': ['k0 ', 'other'], 'genbank_acc': ['GCA_0 ', 'GCA_x'], 'refseq_acc': [' GCF_0', 'GCF_x'], 'ncbi_id': [555, 999]}
 
 
 class FakeSigs:
